@@ -60,7 +60,7 @@ fn gen_ledger(rng: &mut StdRng) -> Rec {
         }
         ledger.push(cells);
     }
-    Rec { days: DAYS.to_vec(), secs: SECS.iter().map(|s| s.to_string()).collect(), timing: "end".into(), ledger, dist: vec![], status: String::new(), err: json!([]), uncovered: vec![], legs: vec![], pool: vec![] }
+    Rec { days: DAYS.to_vec(), secs: SECS.iter().map(|s| s.to_string()).collect(), timing: "end".into(), ledger, dist: vec![], status: String::new(), err: json!([]), uncovered: vec![], legs: vec![], pool: vec![], exact: false }
 }
 
 fn r2(x: Rat) -> serde_json::Value { json!([x.n as i64, x.d as i64]) }
